@@ -620,6 +620,7 @@ func runD10(t *testing.T, id, target string, hookOn bool, steps []string) {
 			viol(fmt.Sprintf("children-managed-for-dying-parent:hook=%v:finalizer=%v:gc=%v", hookOn, hasOurs, gcFin), "attachments of an object pending deletion were written although it cannot be finalized by us", sr)
 		}
 	}
+	lastErr := ""
 	settle := func() bool {
 		for i := 0; i < 40; i++ {
 			syncs, ok := w.round()
@@ -628,12 +629,30 @@ func runD10(t *testing.T, id, target string, hookOn bool, steps []string) {
 			}
 			for _, sr := range syncs {
 				judge(sr)
+				lastErr = ""
+				if sr.Err != nil {
+					lastErr = sr.Err.Error()
+				}
 			}
 			if len(syncs) == 0 {
 				if !w.quiesce() {
 					return false
 				}
 				if w.q.Len() == 0 {
+					// quiet: "children are still reconciled to its answer" - a finalization that we
+					// are entitled to carry out cannot be left half-way with nothing queued
+					if cur := s.Peek(tgvr, sc.ns(), sc.targetName()); cur != nil && sim.UID(cur) == tuid && hookOn && lastErr == "" {
+						gc := sim.HasFinalizer(cur, "foregroundDeletion") || sim.HasFinalizer(cur, "orphan")
+						if sim.HasFinalizer(cur, finName) && !gc && (sim.IsDeleting(cur) || sim.Labels(cur)["decorate"] != uid) {
+							var left []string
+							for _, o := range s.PeekAll(sim.ConfigMapInfo.GVR()) {
+								if c := sim.ControllerOf(o); c != nil && c.UID == tuid {
+									left = append(left, sim.Name(o))
+								}
+							}
+							rep.Violation("C10", id, "decorator:finalization-stalled", fmt.Sprintf("the object still carries the finalizer and must be finalized (deleting=%v, selected=%v), yet nothing is queued any more; attachments left: %v", sim.IsDeleting(cur), sim.Labels(cur)["decorate"] == uid, left), map[string]interface{}{"target": target, "steps": steps})
+						}
+					}
 					return true
 				}
 			}
